@@ -508,3 +508,59 @@ Example C02_script_cancel_example :
                sc_calls := [ {| cl_at := 3; cl_kind := KCancel |}; {| cl_at := 5; cl_kind := KRun |} ]; sc_end := 9 |} in
   existsb (fun t => list_eqb cst_eqb (t_calls t) [Ret Nil; Ret ErrNoSuchJob] && list_eqb N.eqb (t_starts t) []) (finals sc) = true.
 Proof. vm_compute. reflexivity. Qed.
+
+(* ------------------------------------------------------------------------------------------------
+   Bursts (Model/C02_Burst.v): several callers operating on ONE name at the same moment.  Each of
+   ScheduleJob / SchedulePeriodicJob (check for the name and insert), RunJob (look up and delete a
+   one-off entry) and CancelJob (look up and delete) is ONE section of jobsMutex, so the calls of a
+   burst take effect in some order; the theorems are about EVERY order, of any length, from any
+   table.  Weights of a call with the code it returned: w_acc = 1 for an accepted ScheduleJob,
+   w_claim = 1 for a CancelJob that returned nil and for a RunJob that returned nil on a one-off
+   job, w_run = 1 for a RunJob that returned nil, w_rel = 1 for the removal of its name by the
+   goroutine of a job whose context was cancelled (no call of the API). *)
+From Verif Require Import Model.C02_Burst Proofs.C02_Burst.
+
+(* a name is held by at most one job -- accepted = claimed + still listed (one less at most per
+   goroutine that left by itself) -- and the job functions are called exactly as often as run
+   requests reported success *)
+Theorem C02_burst_name_held_once :
+  forall per l s s' cs, b_run per s l = (s', cs) ->
+  exists ocs, map (fun x => fst x) ocs = l /\ map (fun x => snd x) ocs = cs
+    /\ hN s' + wt (w_claim per) ocs <= hN s + wt w_acc ocs
+    /\ hN s + wt w_acc ocs <= hN s' + wt (w_claim per) ocs + wt w_rel ocs
+    /\ total_runs (bs_runs s') = total_runs (bs_runs s) + wt w_run ocs.
+Proof.
+  intros per l s s' cs H. destruct (b_run_law _ _ _ _ _ H) as (ocs & Hl & Hm & Hc).
+  exists ocs. split; [exact Hm | split; [exact Hc | exact Hl]].
+Qed.
+Print Assumptions C02_burst_name_held_once.
+
+(* when the jobs' time has passed the job then listed, and no other, has run once more, and the
+   name is free: a job cancelled (or claimed) before its time does not run at its time *)
+Theorem C02_burst_time_passes :
+  forall s, held (b_fire s) = false /\ total_runs (bs_runs (b_fire s)) = total_runs (bs_runs s) + hN s.
+Proof. exact b_fire_law. Qed.
+Print Assumptions C02_burst_time_passes.
+
+(* what the correspondence check of a burst accepts: when the search finds an order of the lanes
+   in which the model returns the OBSERVED codes, the laws hold for the observed codes, between
+   the state before the burst and a state that passes the final comparison [k] (table entry and
+   run counts as observed) *)
+Theorem C02_burst_accepted_observation :
+  forall fuel per s lanes k, lin fuel per s lanes k = true ->
+  exists s', k s' = true
+    /\ hN s' + wt (w_claim per) (concat lanes) <= hN s + wt w_acc (concat lanes)
+    /\ hN s + wt w_acc (concat lanes) <= hN s' + wt (w_claim per) (concat lanes) + wt w_rel (concat lanes)
+    /\ total_runs (bs_runs s') = total_runs (bs_runs s) + wt w_run (concat lanes).
+Proof. exact lin_sound. Qed.
+Print Assumptions C02_burst_accepted_observation.
+
+(* non-vacuity: three callers schedule a free name at once; one accepted is an outcome of the
+   model, two accepted is not *)
+Example C02_burst_examples :
+  let lanes (c1 c2 c3 : code) := [[(BoSched, 0, c1)]; [(BoSched, 1, c2)]; [(BoSched, 2, c3)]] in
+  lin 4 false bs_init (lanes ErrJobAlreadyExists Nil ErrJobAlreadyExists) (fun s => held s) = true
+  /\ lin 4 false bs_init (lanes Nil Nil ErrJobAlreadyExists) (fun _ => true) = false
+  /\ fst (b_run false bs_init [(BoSched, 0); (BoSched, 1); (BoCancel, 0); (BoSched, 2); (BoRun, 0)])
+     = {| bs_table := []; bs_runs := [(2, 1)] |}.
+Proof. vm_compute. split; [reflexivity | split; reflexivity]. Qed.
